@@ -16,26 +16,37 @@ from translate import c06_vmf as T
 from translate import c06_prog as P
 
 MANIFEST = dict(
-    technique='Rocq proof of five obligation families over objects generated from vmf.py by a fail-closed ast translator '
-              '(write templates, key tables, displacement array shapes, entity-loop shape) + vm_compute correspondence of '
-              'the escape/scanner/rounding models + round-trip search on real VMF objects',
-    text='Theorems in Props/C06.v: the tokenizer\'s quoted-string scanner inverts escape_text for every string in both modes; '
-         'every keyvalue line whose interpolations are all escaped strings, numbers or plain literals re-reads as its field '
-         'values (and a raw string field does not); every written key/block name is looked up by a reader in the same block; '
-         'displacement array rows have exactly the length the reader demands for power 1..4; correctly rounded %.6f / %g '
-         'output is within 5e-7 / six significant digits; reading entity and hidden blocks in file order preserves entity '
-         'order; replaceNN indexes 1..99 round-trip. The instance obligations (one per writer method, per array, per loop '
-         'shape) are regenerated from vmf.py on every run and kernel-checked. The search builds maps through the public API '
-         '(all object kinds, options minimal/disp_multiblend/preserve_ids, every tests/*.vmf) and checks text fixed point '
-         'and field-by-field equality with the stated tolerances.',
-    note='Partial with respect to the whole-map statement: the composition of the five families into "the whole map survives" '
-         'is an informal argument plus the search; there is no Gallina model of the VMF object graph. Trusted: Coq kernel + '
-         'vm_compute, translate/c06_vmf.py (its key table is cross-checked against really exported text on every run), the '
-         'hand field-type table (validated on real objects), CPython number formatting being correctly rounded and producing '
-         'no quote/backslash/newline. Format limits excluded from the generator (documented in docs/C06.md): keys that look '
-         'like replaceNN / id, LF/CR in key names, the separator character inside output fields, fixup names with a space, '
-         '>99 fixups, group/visgroup membership of brush-entity solids, 2D viewport coordinates of exactly +-65536. '
-         'Known findings: "-0" text (math.format_float, C05) and cordon_enabled without cordons.',
+    technique='Rocq proof over objects generated from vmf.py by fail-closed ast translators: write templates, key tables, '
+              'displacement array shapes, entity-loop shape (round 1) and, since round 2, every export method as a structured '
+              'write program (lines, blocks, optional wrappers, conditionals, loops, calls) plus the reader configuration of row '
+              'keys and the separators/field order of outputs; the block theorem composes the string-level theorems with the C01 '
+              'KeyValues1 tokenizer/parser model; vm_compute correspondence of the escape/scanner/rounding/output/fixup models; '
+              'round-trip search on real VMF objects',
+    text='Theorems in Props/C06.v (29): the tokenizer\'s quoted-string scanner inverts escape_text for every string in both modes; '
+         'every keyvalue line whose interpolations are escaped strings, numbers or plain literals re-reads as its field values (a raw '
+         'string field does not); for every generated export program that passes prog_ok, every environment (any field contents, '
+         'any outcome of conditions, any number of loop iterations and callees) and call depth, the text written parses -- C01 '
+         'tokenizer and Keyvalues.parse model -- to exactly the tree of keys, values and child blocks the writer was given; every '
+         'written key/block name is looked up by a reader in the same block; displacement rows have exactly the length the reader '
+         'demands for power 1..4 and the reader recognises every row key written (row0..row16); output values survive as_keyvalue/'
+         'parse for fields free of the separator (both forms, extra commas in the parameter), instance:name;command names survive; '
+         'replaceNN lines and EntityFixup index bookkeeping keep up to 99 distinctly named fixups with their indexes; correctly '
+         'rounded %.6f / %g output is within 5e-7 / six significant digits; reading entity and hidden blocks in file order preserves '
+         'entity order. 83 instance obligations (per writer method, per program, per array, per power, loop shape, separators) are '
+         'regenerated from vmf.py and kernel-checked on every run. The search builds maps through the public API (all object kinds, '
+         'options minimal/disp_multiblend/preserve_ids, every tests/*.vmf) and checks text fixed point and field-by-field equality '
+         'with the stated tolerances.',
+    note='Partial with respect to the whole-map statement: text -> KeyValues tree is proved for all export methods; tree -> object is '
+         'proved per block (keys read), per array, per output value, per fixup line, not for whole objects (no Gallina model of the '
+         'VMF object graph; Vec.from_str, UVAxis.parse, allowed_verts, flags tables, ID managers are search-only), and the number '
+         'format used by each field is not tied to the rounding theorems per field. Trusted: Coq kernel + vm_compute, '
+         'translate/c06_vmf.py and translate/c06_prog.py (key table cross-checked against really exported text on every run), the '
+         'hand field-type table (validated on real objects), the C01 KeyValues1 model (tied by C01\'s own check), CPython number '
+         'formatting being correctly rounded and producing no quote/backslash/newline, str.split/join/int/casefold as modelled. '
+         'Format limits excluded from the generator (docs/C06.md): keys that look like replaceNN / id, LF/CR in key names, the '
+         'separator character inside output fields, fixup names with a space, >99 fixups, group/visgroup membership of brush-entity '
+         'solids, 2D viewport coordinates of exactly +-65536. Known findings: "-0" text (math.format_float, C05) and cordon_enabled '
+         'without cordons.',
 )
 
 IMPORTS = ['Coq.NArith.NArith', 'Coq.ZArith.ZArith', 'Coq.Lists.List', 'Coq.Strings.String', 'SV.KV.KvBase', 'SV.Fmt.VmfText',
@@ -548,15 +559,24 @@ def run(ck: Ck) -> None:
                'minimal/disp_multiblend/preserve_ids) and realised through the public API; a map is non-trivial when it has at least '
                'one entity, brush, visgroup, camera or cordon; distinct by full specification. Correspondence cases: strings over an '
                'alphabet rich in escapes (non-trivial = contains quote/backslash/newline), doubles with decimal-boundary values '
-               '(non-trivial = non-integral). Shipped files: every tests/**/*.vmf x preserve_ids x minimal.')
+               '(non-trivial = non-integral); output values of 3..7 fields over an alphabet holding both separators (all distinct values count); '
+               'fixup lists with duplicate/zero/negative indexes and equal names (non-trivial = some index repeated). '
+               'Shipped files: every tests/**/*.vmf x preserve_ids x minimal.')
     ck.trusted.append('hand tables in translate/c06_vmf.py (field types, call graph of export methods, parse roots, vertex arity), '
                       'validated on real objects / really exported text on every run')
     ck.trusted.append('hand-copied ESCAPES table and scanner in rocq/Fmt/VmfText.v (tied by differential correspondence on every run)')
+    ck.trusted.append('translate/c06_prog.py: extraction of the block structure of the export methods (shares the call table and the '
+                      'template classification with c06_vmf.py); hand models of Output.parse / EntityFixup.__init__ in rocq/Fmt/VmfFields.v '
+                      '(tied by differential correspondence and by the generated separators / field order)')
+    ck.trusted.append('the C01 KeyValues1 tokenizer/parser model rocq/KV/* (imported read-only; tied to keyvalues.py/tokenizer.py by check C01)')
     ck.assumptions += [
         'CPython float formatting (%.6f, %g, repr) is correctly rounded and its output contains only digits, sign, point, exponent, '
         'space and inf/nan (hypothesis num_fields_plain of the theorems; exercised by the search)',
         'float(text) returns the double nearest to the decimal text (re-reading adds at most half an ulp to the bounds of family 4)',
-        'the composition of the five obligation families into the whole-map statement is informal; glue is covered by the search only',
+        'text -> tree is proved for every export program; the tree -> object half for whole objects is informal (per block / per field '
+        'families) and covered by the search',
+        'str.split, str.join, int() on digit strings and str.casefold behave as modelled (split_on, join, parse_digits; casefold enters '
+        'the theorems as the section variables is_inst / same_var)',
     ]
     oks = [ck.translate(name, fn) for name, fn in {**T.GEN, **P.GEN}.items()]
     tr = ck.extra.get('translated', {})
@@ -589,10 +609,19 @@ def run(ck: Ck) -> None:
             obs[f'disp_row_keys_read:power{pw}'] = (f'(forallb (fun p => rows_recognised gen_rowreader p (Z.to_nat (gen_disp_size {pw}))) '
                                                     f'gen_row_prefixes && negb (Nat.eqb (List.length gen_row_prefixes) 0))%bool')
         obs['output_separators_agree'] = '((gen_out_esc =? ESC) && (gen_out_write_comma =? COMMA) && (gen_out_read_comma =? COMMA))%N%bool'
+        obs['output_field_count_and_recombination'] = '(Nat.eqb gen_out_exact_fields 5 && Nat.eqb gen_out_recombine_from 6)%bool'
         obs['output_field_order_agrees'] = ('(nlist_eqb gen_out_write_order (0 :: 1 :: 2 :: 3 :: 4 :: nil)%N && nlist_eqb gen_out_read_order (0 :: 1 :: 2 :: 3 :: 4 :: nil)%N)%bool')
         res = ck.instance_obligations(IMPORTS, obs, name='c06')
         if not all(res.values()):
             ck.tie_broken.append('instance obligations failed: ' + ', '.join(k for k, v in res.items() if not v))
+        # the two extractors (template census of round 1, structured programs of round 2) must see the same written lines
+        s1 = {(i['fn'], i['key'], i['val']) for i in tr.get('VmfTemplates_gen', {}).get('sites', [])}
+        s2 = {tuple(x) for x in prog.get('sites', [])}
+        ck.obligation('tie:program_sites_match_template_sites', s1 == s2,
+                      f'{len(s1)} template sites, {len(s2)} program lines (method, key template, value template); only in one: '
+                      f'{sorted(s1 ^ s2)[:4]}')
+        if s1 != s2:
+            ck.tie_broken.append('program translator and template translator disagree on the written lines')
         corr_escape(ck)
         corr_rounding(ck)
         corr_output_fixup(ck)
@@ -617,7 +646,9 @@ def run(ck: Ck) -> None:
         ck.explain('instance:disp_shape')
         ck.explain('instance:disp_arrays_complete')
         ck.explain('instance:disp_row_keys_read')
-    if any('outputs' in k or 'connections' in k for k in keys):
+        ck.explain('translate:VmfFieldsCfg_gen')
+    if any('outputs' in k or 'connections' in k or 'Bad output value' in k for k in keys):
+        ck.explain('translate:VmfFieldsCfg_gen')
         ck.explain('instance:output_')
         ck.explain('correspondence:output_')
     if any('fixups' in k or 'replaceN' in k for k in keys):
